@@ -220,7 +220,14 @@ def summary(fn, norm, calls_pred=None, ctx=None):
             if ret and all(r[0] == "const" for r in ret):
                 return "ret(%s)" % ",".join(str(r[1]) for r in sorted(ret))
             return "cont"
-        out["atoms"].add("%s => true:%s false:%s" % (base, side(at.true_fail, at.true_codes, at.true_ret), side(at.false_fail, at.false_codes, at.false_ret)))
+        st, sf = side(at.true_fail, at.true_codes, at.true_ret), side(at.false_fail, at.false_codes, at.false_ret)
+        if c is not None:
+            # one canonical member of each complement pair: `a != b ? X : Y` is `a == b ? Y : X`; `a < b` is `!(b <= a)`
+            if op == "Ne":
+                base, st, sf = "%s Eq %s" % (a_s, b_s), sf, st
+            elif op in ("Lt", "Le") and b_s < a_s:
+                base, st, sf = "%s %s %s" % (b_s, "Le" if op == "Lt" else "Lt", a_s), sf, st
+        out["atoms"].add("%s => true:%s false:%s" % (base, st, sf))
     for bi, t in fn.calls():
         if fn.blocks[bi]["c"]:
             continue
